@@ -1,4 +1,5 @@
 import Proofs.Machine.HunkHeaders
+import Proofs.Machine.FileHeaders
 import Proofs.Headers.Paths
 import Proofs.Headers.HunkHeader
 /-!
@@ -155,5 +156,96 @@ theorem dangling_hunk_header_has_no_row :
     (match run {} (["diff --git a/x b/x", "--- a/x", "+++ b/x", "@@ -1 +1 @@", "diff --git a/y b/y"].map mkL) with
      | .ok m => (m.out.filter (fun r => pHH r.kind)).map (·.src)
      | .error _ => [99]) = [] := by decide
+
+/-- **`one_file_header_per_section`** (whole runs, `Proofs/Machine/FileHeaders.lean`). For every
+configuration in which the file header is a row of its own (not color-only; file style neither raw
+nor omitted: `FHC`) and every git diff made of ordinary sections — a `diff --git` line, index-like
+lines (`Noise`) and `new file mode` / `deleted file mode` lines, the `--- ` line, the `+++ ` line, then hunk-header lines and hunk lines starting with a
+hunk-header line (`Sec.WF`) — the file-header rows of delta's output are, in order, exactly one per
+section (`rowsOf`): the row written at the section's `+++ ` line, whose text is the description of the
+two names those lines carry (`headerRow`, `fileChangeDescription`; see `description_*` above). No
+section gets two headers, none is skipped, and no header names another section's file. -/
+theorem one_file_header_per_section {cfg : Cfg} (hc : FHC cfg) (secs : List Sec) (w : ∀ s ∈ secs, s.WF) {m : M}
+    (e : run cfg (linesOf secs) = .ok m) :
+    m.out.filter (fun r => r.kind == .file) = rowsOf cfg 0 secs :=
+  run_one_file_row_per_section hc secs w e
+
+/-- two sections meeting the hypotheses (default configuration): a modified file and a deleted one -/
+def secA : Sec :=
+  { d := mkL "diff --git a/src/x.rs b/src/x.rs", noise := [mkL "index 1111111..2222222 100644"],
+    mi := mkL "--- a/src/x.rs", pl := mkL "+++ b/src/x.rs",
+    hunks := ["@@ -1,2 +1,2 @@ fn f()", " ctx", "-old", "+new", "@@ -10 +10 @@", "-a", "+b"].map mkL }
+def secB : Sec :=
+  { d := mkL "diff --git a/y.txt b/y.txt", noise := [mkL "deleted file mode 100644", mkL "index 1111111..0000000"],
+    mi := mkL "--- a/y.txt", pl := mkL "+++ /dev/null", hunks := ["@@ -1 +0,0 @@", "-gone"].map mkL }
+
+example : FHC ({} : Cfg) := ⟨rfl, rfl, rfl⟩
+
+theorem noise_index : Noise (mkL "index 1111111..2222222 100644") :=
+  { hunkHeader := by decide, oldMode := by decide, newMode := by decide, binary := by decide, submodule := by decide,
+    commit := rfl, diff := by decide, fileOp := by decide, minus := by decide, plus := by decide }
+
+theorem bodyL_of (c : Char) (rest : String) (h : isMarker c = true) : BodyL (mkL (String.ofList (c :: rest.toList))) :=
+  ⟨⟨c, rest.toList, by simp [mkL], h⟩, rfl, rfl⟩
+
+example : secA.WF :=
+  { d := by decide
+    noise := by
+      intro x hx
+      simp only [secA, List.mem_singleton] at hx
+      subst hx; exact Or.inl noise_index
+    mi := by decide
+    pl := by decide
+    hunks := by
+      intro x hx
+      simp only [secA, List.map, List.mem_cons, List.not_mem_nil, or_false] at hx
+      rcases hx with h | h | h | h | h | h | h <;> subst h
+      · exact Or.inl (by decide)
+      · exact Or.inr ⟨⟨' ', "ctx".toList, rfl, rfl⟩, rfl, rfl⟩
+      · exact Or.inr ⟨⟨'-', "old".toList, rfl, rfl⟩, rfl, rfl⟩
+      · exact Or.inr ⟨⟨'+', "new".toList, rfl, rfl⟩, rfl, rfl⟩
+      · exact Or.inl (by decide)
+      · exact Or.inr ⟨⟨'-', "a".toList, rfl, rfl⟩, rfl, rfl⟩
+      · exact Or.inr ⟨⟨'+', "b".toList, rfl, rfl⟩, rfl, rfl⟩
+    first := by
+      intro x hx
+      simp only [secA, List.map, List.head?] at hx
+      cases hx; decide }
+
+theorem noise_index0 : Noise (mkL "index 1111111..0000000") :=
+  { hunkHeader := by decide, oldMode := by decide, newMode := by decide, binary := by decide, submodule := by decide,
+    commit := rfl, diff := by decide, fileOp := by decide, minus := by decide, plus := by decide }
+
+example : secB.WF :=
+  { d := by decide
+    noise := by
+      intro x hx
+      simp only [secB, List.mem_cons, List.not_mem_nil, or_false] at hx
+      rcases hx with h | h <;> subst h
+      · exact Or.inr (by decide)
+      · exact Or.inl noise_index0
+    mi := by decide
+    pl := by decide
+    hunks := by
+      intro x hx
+      simp only [secB, List.map, List.mem_cons, List.not_mem_nil, or_false] at hx
+      rcases hx with h | h <;> subst h
+      · exact Or.inl (by decide)
+      · exact Or.inr ⟨⟨'-', "gone".toList, rfl, rfl⟩, rfl, rfl⟩
+    first := by
+      intro x hx
+      simp only [secB, List.map, List.head?] at hx
+      cases hx; decide }
+
+/-- what the theorem says for these two sections: one row at each `+++ ` line (input lines 3 and 14),
+the modified file under its name, the deleted one as removed -/
+example : rowsOf {} 0 [secA, secB] =
+    [{ kind := .file, text := "src/x.rs".toList, src := 3 }, { kind := .file, text := "removed: y.txt".toList, src := 15 }] := by
+  decide
+
+/-- … and it is what the model computes for them -/
+example : (match run {} (linesOf [secA, secB]) with
+    | .ok m => m.out.filter (fun r => r.kind == .file) == rowsOf {} 0 [secA, secB]
+    | .error _ => false) = true := by decide
 
 end C14
